@@ -25,7 +25,7 @@ from ..util import Def, make_cfg, pmap, split_defs
 MANIFEST = {
     "technique": "TLA+ spec of the GEL rules (observe/tick/merge/split/promotion, gate) on an exact dyadic grid model-checked with TLC over configuration alphabets and bounded histories; every transition replayed on the real gel functions incl. all permutations of the item list; random long float histories and real orchestrator turns validated by TLC trace checking with IEEE-754 order encoding",
     "text": "Bounded exhaustive model checking of the documented GEL rules with the ten C18 clauses as invariants / action properties (clamp bounds, monotone decay, drop exactly below the floor, one canonically keyed edge per unordered pair, pair cap, top-k above threshold, listing-order insensitivity, maintenance only annotates/attaches, idempotent promotion, closed gate = untouched), bound to the code by transition-coverage replay on observe_retrieval / tick / *_candidates / apply_* with a plain dict state (edges, nodes, meta compared after every operation), by trace validation of seeded random long histories with arbitrary float scores, alphas, clamp ranges and half-lives (weights compared exactly through their bit patterns), and by real run_turn executions with graph.enabled on and off.",
-    "note": "Small scope for the exhaustive part: <= 4 base ids (+ their concept ids), bags of <= 4 items, histories <= 5 operations, weights on a 2^-20 grid with alpha in {1/8, 1/2}, decay factors 2^-n. The increment rule (additive +alpha, proportional +alpha(1-min(|w|,1))) is taken from the module and its unit tests; docs/m11/overview.md summarises a score-weighted variant. Ids containing the key separator are outside the alphabet (two different pairs could share a key). Orderings of merge candidates that hinge on 'size ASC' (docs) vs 'size DESC' (module) are guarded out. Clamp ranges that exclude 0, alpha=inf and floor=NaN (formerly accepted, each broke WithinClamp) are rejected by the repaired validator; the check asserts the rejection and re-runs the reproducer if one is accepted again.",
+    "note": "Small scope for the exhaustive part: <= 4 base ids (+ their concept ids), bags of <= 4 items, histories <= 5 operations, weights on a 2^-20 grid with alpha in {1/8, 1/2}, decay factors 2^-n. The increment rule (additive +alpha, proportional +alpha(1-min(|w|,1))) is taken from the module and its unit tests; docs/m11/overview.md summarises a score-weighted variant. Ids containing the key separator are outside the exhaustive alphabet; a separate probe observes two pairs whose joined spellings coincide (open finding C18-separator-in-ids). Orderings of merge candidates that hinge on 'size ASC' (docs) vs 'size DESC' (module) are guarded out. Clamp ranges that exclude 0, alpha=inf and floor=NaN (formerly accepted, each broke WithinClamp) are rejected by the repaired validator; the check asserts the rejection and re-runs the reproducer if one is accepted again.",
 }
 
 D = 1 << 20
@@ -575,6 +575,30 @@ def formerly_accepted(run) -> None:
             run.notes.append(f"validate_config accepts {raw} again (no clamp violation reproduced)")
 
 
+def separator_in_ids(run) -> None:
+    """ids that contain the key separator: two different unordered pairs must still be two edges (the model's keys are
+    pairs; the real keys are strings joined with the separator)"""
+    from configs.validate import validate_config
+    from clematis.engine import gel
+    g = validate_config({"graph": {"enabled": True, "coactivation_threshold": 0.0, "update": {"mode": "additive", "alpha": 0.125}}})["graph"]
+    for (p1, p2) in ((("a→b", "c"), ("a", "b→c")), (("x→", "y"), ("x", "→y"))):
+        ctx, st = {"graph": g}, {}
+        gel.observe_retrieval(ctx, st, [(p1[0], 0.9), (p1[1], 0.8)], turn=1)
+        gel.observe_retrieval(ctx, st, [(p2[0], 0.9), (p2[1], 0.8)], turn=2)
+        edges = st["graph"]["edges"]
+        run.traces += 1
+        run.case(("separator_in_ids", json.dumps([p1, p2], ensure_ascii=False)))
+        pairs = {tuple(sorted((r["src"], r["dst"]))) for r in edges.values()}
+        if len(edges) != 2 or pairs != {tuple(sorted(p1)), tuple(sorted(p2))}:
+            run.fail("OneEdgePerUnorderedPair", {"clause": "OneEdgePerUnorderedPair", "cause": "separator-in-id"},
+                     {"pairs": [list(p1), list(p2)], "edges": {k: [r["src"], r["dst"], r.get("attrs", {}).get("coact")] for k, r in edges.items()}},
+                     f"observing the pair {p1} and then the pair {p2} leaves {len(edges)} edge(s): "
+                     f"{ {k: (r['src'], r['dst'], r.get('attrs', {}).get('coact')) for k, r in edges.items()} }",
+                     replay={"family": "separator_in_ids"})
+        else:
+            run.ok("OneEdgePerUnorderedPair.separator_in_ids")
+
+
 def check(run) -> None:
     q = run.quick
     run.rule = ("every transition (config, gate, pre-graph, operation, post-graph) of the bounded-depth exhaustive Gel state graphs "
@@ -615,6 +639,7 @@ def check(run) -> None:
                            Ops=["observe", "tick", "promote"], MaxDepth=5)
         run_family(run, "deep5", deep)
     formerly_accepted(run)
+    separator_in_ids(run)
     run.exhaustive = True
     run.constants = {"D": D, "half_lives": HALF_LIVES, "names_4_2": names(4, 2)}
     from . import c18_traces, c18_turn
@@ -622,7 +647,7 @@ def check(run) -> None:
     c18_turn.check(run)
     run.assumptions += [
         "small scope for the exhaustive part: <= 4 base ids, bags <= 4 items, histories <= 5 operations, 2^-20 grid",
-        "ids do not contain the key separator '→' (two different pairs could otherwise share one key)",
+        "the exhaustive id alphabet has no id with the key separator '→'; the probe separator_in_ids covers that case (open finding)",
         "a transition whose exact result leaves the grid is not generated (double arithmetic stays exact on every replayed case)",
         "WithinClamp binds every edge weight, concept attachment edges included, to [clamp_min, clamp_max]",
         "configurations are passed through the real validate_config; a rejected configuration is outside the quantifier (guarded out)",
@@ -640,6 +665,12 @@ def replay(rep) -> int:
         box = SimpleNamespace(traces=0, notes=[], case=lambda k: None, ok=lambda c: None, out=[])
         box.fail = lambda clause, sig, wit, msg, replay=None: box.out.append((clause, msg))
         formerly_accepted(box)
+        fails = [f for f in box.out]
+    elif fam == "separator_in_ids":
+        from types import SimpleNamespace
+        box = SimpleNamespace(traces=0, notes=[], case=lambda k: None, ok=lambda c: None, out=[])
+        box.fail = lambda clause, sig, wit, msg, replay=None: box.out.append((clause, msg))
+        separator_in_ids(box)
         fails = [f for f in box.out]
     elif fam.startswith("trace"):
         from . import c18_traces
